@@ -3,6 +3,27 @@ import json, os
 ROOT = os.path.dirname(os.path.dirname(os.path.abspath(__file__)))
 
 CHECKS = {
+    "C07": dict(
+        category="exploration",
+        text="Runtime monitor over the real conversion and hashing functions: round trip and three-way tree-hash agreement for every atom up to 2 (quick) / 3 (thorough) bytes and random hostile trees in both integer modes; all-pairs equality/hash consistency over pools of colliding spellings obtained from the real reader and the real converter.",
+        design_ref="DESIGN.md §4 C07",
+        note="trusts clvmr serde/tree hash and sha2",
+        technique="runtime invariant monitoring (bounded-exhaustive + random) against clvmr",
+    ),
+    "C08": dict(
+        category="exploration",
+        text="Differential runtime monitor of sexp_to_stream/sexp_from_stream against clvmr's serialiser and deserialiser: all length-class boundaries, random trees, every byte string up to 2/3 bytes as decoder input, systematic truncations and prefix mutations.",
+        design_ref="DESIGN.md §4 C08",
+        note="trusts clvmr node_to_bytes/node_from_bytes",
+        technique="runtime differential monitoring against clvmr serde",
+    ),
+    "C09": dict(
+        category="exploration",
+        text="Round-trip runtime monitor over the real printers and readers: classic disassemble->assemble for operator-set versions 0,1,2 and modern print->parse_sexp / ->assemble in the fixed integer mode, for every atom up to 2 bytes (3 over an alphabet) in four syntactic positions and random trees; compiler outputs are re-read as part of C11.",
+        design_ref="DESIGN.md §4 C09",
+        note="byte comparison through clvmr serialisation",
+        technique="runtime round-trip monitoring (bounded-exhaustive + random)",
+    ),
     "C04": dict(
         category="exploration",
         text="Differential runtime monitor: for exhaustively enumerated small CLVM trees/expressions, targeted path-arithmetic families and random large trees, whenever clvmr evaluates R in E to v the real optimize_sexp and run_optimizer must accept R and clvmr must evaluate their output in E to v. Exhaustive only inside the stated node bounds; random beyond.",
